@@ -120,6 +120,12 @@ func xquantile(qn, qd int64, p []*xv, f *xflags) *xv {
 	if len(p) == 0 {
 		return nil
 	}
+	if qn < 0 { // q < 0: −∞, q > 1: +∞ (for a non-empty input)
+		return &xv{inf: -1}
+	}
+	if qn > qd {
+		return &xv{inf: 1}
+	}
 	s := append([]*xv(nil), p...)
 	sort.SliceStable(s, func(i, j int) bool { return xcmp(s[i], s[j]) < 0 })
 	ix := new(big.Rat).Mul(big.NewRat(qn, qd), big.NewRat(int64(len(s)-1), 1))
@@ -265,6 +271,17 @@ var injections = []injection{
 var xAggOps = []string{"max", "min", "max", "min", "sum", "avg", "count", "group"}
 var xOtOps = []string{"max", "min", "max", "min", "sum", "avg", "count", "last"}
 
+// also q outside [0,1]
+func genQX(r *verifx.Rng) (int64, int64) {
+	if r.Chance(1, 3) {
+		if r.Bool() {
+			return -1, 2
+		}
+		return 3, 2
+	}
+	return genQ(r)
+}
+
 func extCase(h *verifx.H, r *verifx.Rng, metric *format.MetricMetaValue) {
 	sc := genFine(r, metric)
 	for sc.step == 10 {
@@ -273,16 +290,16 @@ func extCase(h *verifx.H, r *verifx.Rng, metric *format.MetricMetaValue) {
 	lod := gridOf(sc.step)
 	inj := injections[r.Pick(5, 2, 2, 1, 1)]
 	var n node
-	switch r.Pick(5, 2, 5, 1) {
+	switch r.Pick(5, 3, 5, 2) {
 	case 0:
 		n = node{kind: "agg", op: xAggOps[r.Intn(len(xAggOps))], without: r.Chance(1, 3), labels: genLabels(r)}
 	case 1:
-		qn, qd := genQ(r)
+		qn, qd := genQX(r)
 		n = node{kind: "q", qn: qn, qd: qd, without: r.Chance(1, 3), labels: genLabels(r)}
 	case 2:
 		n = node{kind: "ot", op: xOtOps[r.Intn(len(xOtOps))], rng: lod * int64(r.Range(1, 3)), sub: true}
 	default:
-		qn, qd := genQ(r)
+		qn, qd := genQX(r)
 		n = node{kind: "qot", qn: qn, qd: qd, rng: lod * int64(r.Range(1, 3)), sub: true}
 	}
 	text := n.wrap(inj.text("(m + 0)"), false)
